@@ -22,7 +22,7 @@ TIMEOUT_S = 20
 
 
 # ----------------------------------------------------------------------------- implementation side
-class _Timeout(Exception):
+class _Timeout(BaseException):  # not an Exception: `except Exception` blocks must not swallow it
     pass
 
 
@@ -40,6 +40,8 @@ def pollute_other_objects():
     if _POLLUTED:
         return
     _POLLUTED = True
+    old = signal.signal(signal.SIGALRM, _alarm)
+    signal.setitimer(signal.ITIMER_REAL, 10)
     try:
         from pywhy_graphs import CPDAG
         from pywhy_graphs.algorithms import pag as pagmod
@@ -56,8 +58,11 @@ def pollute_other_objects():
             H.add_edge(lab(0), lab(1), "directed")
             H.add_edge(lab(1), lab(2), "undirected")
             pagmod._apply_meek_rules(H)
-    except Exception:
+    except (Exception, _Timeout):
         pass
+    finally:
+        signal.setitimer(signal.ITIMER_REAL, 0)
+        signal.signal(signal.SIGALRM, old)
 
 
 def build_cpdag(g, lab):
@@ -107,8 +112,9 @@ def run_impl(pdag, fam="int", rule=None, i=None, j=None):
                 for a, b in alt["U"]:
                     G.add_edge(lab(a), lab(b), "undirected")
                 pagmod._apply_meek_rules(G)
-            except Exception:
+            except (Exception, _Timeout):
                 pass
+            signal.setitimer(signal.ITIMER_REAL, TIMEOUT_S)
             G.clear_edges()
             for a, b in pdag["D"]:
                 G.add_edge(lab(a), lab(b), "directed")
